@@ -166,44 +166,61 @@ class Ctx:
         return rets
 
     def bfs(self, sub, cfg, depth, max_states=None):
-        """Explicit-state breadth-first search over event histories.
+        """Explicit-state breadth-first search over event histories for one configuration (see bfs_multi)."""
+        return self.bfs_multi(sub, [(cfg, depth)], max_states=max_states)
+
+    def bfs_multi(self, sub, cfg_depths, max_states=None):
+        """Explicit-state breadth-first search over event histories, several configurations level by level.
 
         SUBS[sub]({'cfg': cfg, 'hist': [...]}) builds a fresh real object, replays hist,
         evaluates the invariants in the reached state and returns
-        ret={'state': canonical-hash, 'enabled': [events]}.  A state already seen is not
+        ret={'state': canonical-json, 'enabled': [events]}.  A state already seen (per configuration) is not
         expanded again (its futures are identical by the canonicalisation argument of the
-        check).  Every executed history is an implementation trace.
+        check).  Every executed history is an implementation trace.  The frontiers of all configurations
+        are executed together so that the worker pool stays busy.
         """
-        seen = set()
-        frontier = [[]]
+        seen = [set() for _ in cfg_depths]
+        frontier = [[[]] for _ in cfg_depths]
+        counts = [0 for _ in cfg_depths]
+        stopped = [False for _ in cfg_depths]
         level = 0
-        total_states = 0
-        while frontier and level <= depth:
-            cases = [{'cfg': cfg, 'hist': h} for h in frontier]
+        while any(frontier):
+            cases = []
+            owner = []
+            for ci, (cfg, depth) in enumerate(cfg_depths):
+                if level > depth or stopped[ci]:
+                    frontier[ci] = []
+                    continue
+                for h in frontier[ci]:
+                    cases.append({'cfg': cfg, 'hist': h})
+                    owner.append(ci)
+            if not cases:
+                break
             rets = self.pmap(sub, cases)
-            nxt = []
-            for h, r in zip(frontier, rets):
+            nxt = [[] for _ in cfg_depths]
+            for case, ci, r in zip(cases, owner, rets):
                 if r is None:
                     continue
+                h = case['hist']
                 self.traces += 1
                 self.transitions += 1 if h else 0
-                k = jhash([cfg, r['state']])
-                if k in seen:
+                k = jhash([cfg_depths[ci][0], r['state']])
+                if k in seen[ci]:
                     continue
-                seen.add(k)
+                seen[ci].add(k)
                 self.states.add(k)
-                total_states += 1
-                if level < depth:
+                counts[ci] += 1
+                if level < cfg_depths[ci][1]:
                     for ev in r['enabled']:
-                        nxt.append(h + [ev])
-            if max_states and total_states > max_states:
-                self.caps.append('bfs %s cfg=%s stopped at depth %d: max_states=%d' % (
-                    sub, cfg, level, max_states))
-                self.exhaustive = False
-                break
+                        nxt[ci].append(h + [ev])
+            for ci in range(len(cfg_depths)):
+                if max_states and counts[ci] > max_states and not stopped[ci]:
+                    self.caps.append('bfs %s cfg#%d stopped at depth %d: max_states=%d' % (sub, ci, level, max_states))
+                    self.exhaustive = False
+                    stopped[ci] = True
             frontier = nxt
             level += 1
-        return total_states
+        return sum(counts)
 
     def note(self, key, value):
         self.notes[key] = value
